@@ -22,10 +22,12 @@ echo "suite exit=$? ; failing tests: $(grep -- '--- FAIL' /var/tmp/seedsuite-$id
 cp $demo $dir/zz_seed_demo_test.go
 echo "--- demo WITH the change (must fail)" >> $out
 go test -vet=off -count=1 -run "^($tests)\$" ./$dir/ > /var/tmp/seeddemo-$id-with.log 2>&1; echo "exit=$?" >> $out
-git stash push -q -- $(git diff --name-only) 
+# (git stash is shared by all worktrees of a repository: never use it here)
+git diff -- src > /var/tmp/seedcur-$id.diff
+git apply -R /var/tmp/seedcur-$id.diff
 echo "--- demo WITHOUT the change (must pass)" >> $out
 go test -vet=off -count=1 -run "^($tests)\$" ./$dir/ > /var/tmp/seeddemo-$id-without.log 2>&1; echo "exit=$?" >> $out
-git stash pop -q
+git apply /var/tmp/seedcur-$id.diff
 rm -f $dir/zz_seed_demo_test.go
 git status --short >> $out
 cat $out
